@@ -594,10 +594,12 @@ Arguments EvPause {Src Rend V} _ _.
 (* ------------------------------------------------------------------------------------ *)
 (** * 5. The concrete instance used by the correspondence run *)
 
-(* data sources: named row tables (file/csv: []map[string]string) and one `variables`
-   source named "g" (map of scalars) *)
+(* data sources: named row tables (file/csv: []map[string]string), one `variables`
+   source named "g" (map of scalars) and further `variables` sources holding list variables
+   (source -> list name -> elements); the same list name may occur under several sources *)
 Record csrc := { cs_tables : list (bytes * list (list (bytes * bytes)));
-                 cs_glob : list (bytes * bytes) }.
+                 cs_glob : list (bytes * bytes);
+                 cs_vlists : list (bytes * list (bytes * list bytes)) }.
 
 (* the path expressions the generated preprocessors use (lib/mp GetMapValue) *)
 Inductive pexpr :=
@@ -605,6 +607,7 @@ Inductive pexpr :=
 | PLast (src field : bytes)          (* source.<src>[last].<field> *)
 | PIdx (src : bytes) (i : Z) (field : bytes)   (* source.<src>[<i>].<field> *)
 | PGlob (key : bytes)                (* source.g.<key> *)
+| PVNext (src lst : bytes)           (* source.<src>.<lst>[next]  (list variable of a variables source) *)
 | PPost (req var : bytes)            (* request.<req>.postprocessor.<var> *)
 | PPre (req var : bytes).            (* request.<req>.preprocessor.<var> *)
 
@@ -651,6 +654,23 @@ Definition seg_next (own : N) (src : bytes) : seg :=
   (* ".source.<src>[next]" in iterator number [own] *)
   own :: [46;115;111;117;114;99;101;46]%N ++ src ++ [91;110;101;120;116;93]%N.
 
+Definition seg_vnext (own : N) (src lst : bytes) : seg :=
+  (* ".source.<src>.<lst>[next]" in iterator number [own]: the WHOLE path walked so far is the
+     key (Model/MapPath.v), so lists of the same name under different sources do not share it *)
+  own :: [46;115;111;117;114;99;101;46]%N ++ src ++ [46]%N ++ lst ++ [91;110;101;120;116;93]%N.
+
+Fixpoint assoc_vsrc (l : list (bytes * list (bytes * list bytes))) (k : bytes) :=
+  match l with
+  | [] => None
+  | (a, b) :: r => if beq a k then Some b else assoc_vsrc r k
+  end.
+
+Fixpoint assoc_vlist (l : list (bytes * list bytes)) (k : bytes) :=
+  match l with
+  | [] => None
+  | (a, b) :: r => if beq a k then Some b else assoc_vlist r k
+  end.
+
 Definition with_iter (w : cworld) (st : iter_state) : cworld :=
   {| w_arr := w_arr w; w_script := w_script w; w_dflt := w_dflt w; w_iter := st |}.
 Definition with_arr (w : cworld) (a : nat) : cworld :=
@@ -693,6 +713,21 @@ Definition eval_pexpr (own : N) (e : pexpr) (t : ctree) (w : cworld) : option (c
                      end
       end
   | PGlob key => Some (w, assoc (cs_glob (t_src t)) key)
+  | PVNext src lst =>
+      match assoc_vsrc (cs_vlists (t_src t)) src with
+      | None => Some (w, None)
+      | Some ls =>
+          match assoc_vlist ls lst with
+          | None => Some (w, None)
+          | Some [] => Some (w, None)            (* calcIndex: empty list -> error *)
+          | Some elems =>
+              let '(v, st) := it_next (w_iter w) (seg_vnext own src lst) in
+              match next_row (length elems) v with
+              | NxPanic => None
+              | NxRow i => Some (with_iter w st, nth_error elems i)
+              end
+          end
+      end
   | PPost req var =>
       Some (w, match rm_get (t_req t) req with
                | Some sv => match sv_post sv with Some m => assoc m var | None => None end
